@@ -367,7 +367,7 @@ def run(ctx):
     ctx.check(not bad, 'C08.complete-keys', construct(a.func), 'store %s indexed by `%s`' % (a.store, txt),
               'store %s is indexed by `%s`, which carries the spelling as given, not the complete selector: two spellings of one '
               'parameter become different keys' % (a.store, txt), a.func.loc(a.node), instance='%s[%s]' % (a.store, txt))
-  ctx.expect_at_least('keyed accesses to the binding/provenance/operative stores', nsite, 8)
+  ctx.expect_at_least('keyed accesses to the binding/provenance/operative stores', nsite, 4)
 
   # ---- C08.funnel: every API that accepts a possibly partial name resolves it through the map's matcher
   funnel = [
